@@ -65,7 +65,7 @@ out = ["Seeds: `-mN` written by independent sub-agents that saw only the propert
        "`tools/verify_seed.sh`: demo passes on the clean tree, fails with the patch, 282 tests still pass); `-aN` written by me from the changes",
        "the property texts report as surviving the suite; `-prefixFn` the reverse of my own fix commits. Every row was produced by",
        "`tools/seed_matrix.sh` (quick tier, scratch copy of /repo). *how* says whether the check caught the change as it stood when the change",
-       "arrived (\"first\") or what had to be added after a miss - 109 of the 147 sub-agent changes were caught at first try; the misses are the reason for the session-history dimension, the boundary values (zero, None, empty) and the symbolic-value harnesses.", "",
+       "arrived (\"first\") or what had to be added after a miss - 122 of the 163 sub-agent changes were caught at first try; the misses are the reason for the session-history dimension, the boundary values (zero, None, empty) and the symbolic-value harnesses.", "",
        "| seed | origin | change | caught by (first obligation that fails) | how |", "|---|---|---|---|---|"]
 for r in rows:
     out.append("| " + " | ".join(r) + " |")
